@@ -20,7 +20,7 @@ func runC15(e *env) {
 		n, samples = 100, 25
 	}
 	for i := 0; i < n; i++ {
-		prof := profile{Unions: true, Structs: true, NamedBasics: true, Enums: true, Containers: true, Time: true, SubPkg: true, Recursive: i%3 == 0, ModShape: 0}
+		prof := profile{Unions: true, Structs: true, NamedBasics: true, Enums: true, Containers: true, Time: true, SubPkg: true, Recursive: i%3 == 0, ModShape: 0, TagsSafe: true, IgnoreOnWire: true, SiblingMembers: true}
 		specs = append(specs, synthModule(e.r, prof, i))
 	}
 	obs := observeAll(specs, "gounions,randdata", 14)
